@@ -7,7 +7,7 @@ open EvalFilter EvalFilter.VM EvalFilter.OptCheck
 /-- consecutive stages are validated rewrites -/
 def ValidChain : Bytes → List Bytes → Prop
   | _, [] => True
-  | b, x :: r => validStep b x = true ∧ ValidChain x r
+  | b, x :: r => okStep b x = true ∧ ValidChain x r
 
 theorem lastOf_nil (b : Bytes) : lastOf b [] = b := rfl
 theorem lastOf_cons (b x : Bytes) (r : List Bytes) : lastOf b (x :: r) = lastOf x r := by
@@ -37,7 +37,7 @@ theorem mathsTrace_spec : ∀ (f : Nat) (b : Bytes) (L : List Bytes), mathsTrace
       · simp only [hv, ↓reduceIte, Option.map_eq_some_iff] at h
         obtain ⟨L', hL', rfl⟩ := h
         obtain ⟨h1, h2⟩ := mathsTrace_spec f b' L' hL'
-        exact ⟨⟨hv, h1⟩, by rw [lastOf_cons, h2]⟩
+        exact ⟨⟨by simp [okStep, hv], h1⟩, by rw [lastOf_cons, h2]⟩
       · simp [hv] at h
 
 theorem jumpsTrace_spec : ∀ (f : Nat) (b : Bytes) (L : List Bytes), jumpsTrace f b = some L →
@@ -54,7 +54,7 @@ theorem jumpsTrace_spec : ∀ (f : Nat) (b : Bytes) (L : List Bytes), jumpsTrace
       · simp only [hv, ↓reduceIte, Option.map_eq_some_iff] at h
         obtain ⟨L', hL', rfl⟩ := h
         obtain ⟨h1, h2⟩ := jumpsTrace_spec f b' L' hL'
-        exact ⟨⟨hv, h1⟩, by rw [lastOf_cons, h2]⟩
+        exact ⟨⟨by simp [okStep, hv], h1⟩, by rw [lastOf_cons, h2]⟩
       · simp [hv] at h
 
 /-- the two rewriting passes of `optimize` -/
@@ -85,6 +85,42 @@ theorem rewriteTrace_spec (b : Bytes) (L : List Bytes) (h : rewriteTrace b = som
         · simp [hw2] at h
   · simp [hwf] at h
 
+theorem ValidChain.snoc_opt {b : Bytes} {L : List Bytes} (h : ValidChain b L) (x : Bytes)
+    (hx : x = lastOf b L ∨ okStep (lastOf b L) x = true) :
+    ValidChain b (L ++ (if x = lastOf b L then [] else [x])) ∧
+      lastOf b (L ++ (if x = lastOf b L then [] else [x])) = x := by
+  by_cases he : x = lastOf b L
+  · rw [if_pos he, List.append_nil]
+    exact ⟨h, he.symm⟩
+  · rw [if_neg he]
+    rcases hx with hx | hx
+    · exact absurd hx he
+    · refine ⟨h.append ⟨hx, trivial⟩, ?_⟩
+      rw [lastOf_append, lastOf_cons, lastOf_nil]
+
+theorem fullTrace_spec (b : Bytes) (L : List Bytes) (h : fullTrace b = some L) :
+    ValidChain b L ∧ wfB (lastOf b L) = true ∧ lastOf b L = Optimizer.optimize b := by
+  unfold fullTrace at h
+  cases hr : rewriteTrace b with
+  | none => simp [hr] at h
+  | some L0 =>
+    obtain ⟨c0, _, e0⟩ := rewriteTrace_spec b L0 hr
+    simp only [hr] at h
+    split at h
+    · rename_i hc
+      simp only [Bool.and_eq_true, Bool.or_eq_true, decide_eq_true_eq] at hc
+      obtain ⟨⟨h3, h4⟩, hw⟩ := hc
+      cases h
+      have s3 := c0.snoc_opt (Optimizer.removeNOPs (lastOf b L0))
+        (by rcases h3 with h | h; exact Or.inl h; exact Or.inr (by simp [okStep, h]))
+      have s4 := s3.1.snoc_opt (Optimizer.removeDeadCode (Optimizer.removeNOPs (lastOf b L0)))
+        (by rw [s3.2]; rcases h4 with h | h; exact Or.inl h; exact Or.inr (by simp [okStep, h]))
+      rw [s3.2] at s4
+      refine ⟨s4.1, by rw [s4.2]; exact hw, ?_⟩
+      rw [s4.2, e0]
+      rfl
+    · cases h
+
 theorem stageAt_zero (L : List Bytes) (b : Bytes) : stageAt L b 0 = b := by cases L <;> rfl
 theorem stageAt_succ (x : Bytes) (r : List Bytes) (b : Bytes) (t : Nat) : stageAt (x :: r) b (t + 1) = stageAt r x t := rfl
 
@@ -108,31 +144,31 @@ theorem stageAt_last : ∀ (L : List Bytes) (b : Bytes) (t : Nat), L.length ≤ 
 
 /-- the stage function of a whole machine: every body follows its own validated trace -/
 def stageFn (b : Bytes) (t : Nat) : Bytes :=
-  match rewriteTrace b with
+  match fullTrace b with
   | some L => stageAt L b t
   | none => b
 
-def traceLen (b : Bytes) : Nat := match rewriteTrace b with | some L => L.length | none => 0
+def traceLen (b : Bytes) : Nat := match fullTrace b with | some L => L.length | none => 0
 
 theorem stageFn_zero (b : Bytes) : stageFn b 0 = b := by
-  unfold stageFn; cases rewriteTrace b <;> simp [stageAt_zero]
+  unfold stageFn; cases fullTrace b <;> simp [stageAt_zero]
 
-theorem stageFn_step (b : Bytes) (h : (rewriteTrace b).isSome = true) (t : Nat) : Step1 (stageFn b t) (stageFn b (t + 1)) := by
+theorem stageFn_step (b : Bytes) (h : (fullTrace b).isSome = true) (t : Nat) : Step1 (stageFn b t) (stageFn b (t + 1)) := by
   unfold stageFn
-  cases hr : rewriteTrace b with
+  cases hr : fullTrace b with
   | none => simp [hr] at h
   | some L =>
-    obtain ⟨hc, hw, _⟩ := rewriteTrace_spec b L hr
+    obtain ⟨hc, hw, _⟩ := fullTrace_spec b L hr
     exact stage_step L b hc hw t
 
-theorem stageFn_last (b : Bytes) (h : (rewriteTrace b).isSome = true) (t : Nat) (ht : traceLen b ≤ t) :
-    stageFn b t = rewritten b := by
+theorem stageFn_last (b : Bytes) (h : (fullTrace b).isSome = true) (t : Nat) (ht : traceLen b ≤ t) :
+    stageFn b t = Optimizer.optimize b := by
   unfold stageFn traceLen at *
-  cases hr : rewriteTrace b with
+  cases hr : fullTrace b with
   | none => simp [hr] at h
   | some L =>
     simp only [hr] at ht ⊢
-    obtain ⟨_, _, e⟩ := rewriteTrace_spec b L hr
+    obtain ⟨_, _, e⟩ := fullTrace_spec b L hr
     rw [stageAt_last L b t ht, e]
 
 theorem le_foldr_max {l : List Nat} {x : Nat} (h : x ∈ l) : x ≤ l.foldr max 0 := by
@@ -144,19 +180,19 @@ theorem le_foldr_max {l : List Nat} {x : Nat} (h : x ∈ l) : x ≤ l.foldr max 
     · exact Nat.le_max_left _ _
     · exact Nat.le_trans (ih h) (Nat.le_max_right _ _)
 
-/-- the machine after the two rewriting passes of the optimizer -/
-def rewrittenMachine (M : Machine) : Machine :=
-  { M with main := rewritten M.main, funcs := M.funcs.map (fun u => { u with code := rewritten u.code }) }
+/-- the machine `vm.New` builds when it optimises: every body run through `optimize` -/
+def optMachine (M : Machine) : Machine :=
+  { M with main := Optimizer.optimize M.main, funcs := M.funcs.map (fun u => { u with code := Optimizer.optimize u.code }) }
 
-/-- **The rewriting passes of the optimizer preserve every finished run**, for every machine all of whose
-    bodies' rewrites validate: the maths pass and the jump pass - any number of folds and jump
-    eliminations, in the main program and in every function body, at any call depth - cannot be observed
-    by a run that ends: it ends with the same result (value, error or panic), the same output (host-call
-    markers included) and the same variables. -/
-theorem rewrite_refines (M : Machine) (obj : HostVal) (hnd : NeverDone M)
-    (hmain : (rewriteTrace M.main).isSome = true)
-    (hfuncs : ∀ u, u ∈ M.funcs → (rewriteTrace u.code).isSome = true) :
-    Refines M (rewrittenMachine M) obj := by
+/-- **The optimizer preserves every finished run**, for every machine all of whose bodies' optimisation
+    steps validate: the maths pass, the jump pass, NOP removal and dead-code removal - any number of
+    steps, in the main program and in every function body, at any call depth - cannot be observed by a
+    run that ends: the optimised machine ends with the same result (value, error or panic), the same
+    output (host-call markers included) and the same variables. -/
+theorem optimize_refines (M : Machine) (obj : HostVal) (hnd : NeverDone M)
+    (hmain : (fullTrace M.main).isSome = true)
+    (hfuncs : ∀ u, u ∈ M.funcs → (fullTrace u.code).isSome = true) :
+    Refines M (optMachine M) obj := by
   let T := ((M.main :: M.funcs.map (·.code)).map traceLen).foldr max 0
   have hS : ∀ b, (b = M.main ∨ ∃ u, u ∈ M.funcs ∧ u.code = b) → ∀ t, Step1 (stageFn b t) (stageFn b (t + 1)) := by
     intro b hb t
@@ -168,15 +204,15 @@ theorem rewrite_refines (M : Machine) (obj : HostVal) (hnd : NeverDone M)
     unfold atStage
     simp only [stageFn_zero]
     cases M; simp
-  have eT : atStage M stageFn (T + 1) = rewrittenMachine M := by
-    unfold atStage rewrittenMachine
-    have h1 : stageFn M.main (T + 1) = rewritten M.main :=
+  have eT : atStage M stageFn (T + 1) = optMachine M := by
+    unfold atStage optMachine
+    have h1 : stageFn M.main (T + 1) = Optimizer.optimize M.main :=
       stageFn_last _ hmain _ (Nat.le_succ_of_le (le_foldr_max (by simp)))
     rw [h1]
     congr 1
     apply List.map_congr_left
     intro u hu
-    have : stageFn u.code (T + 1) = rewritten u.code :=
+    have : stageFn u.code (T + 1) = Optimizer.optimize u.code :=
       stageFn_last _ (hfuncs u hu) _ (Nat.le_succ_of_le (le_foldr_max (by
         simp only [List.map_cons, List.map_map, List.mem_cons, List.mem_map, Function.comp]
         exact Or.inr ⟨u, hu, rfl⟩)))
